@@ -57,8 +57,10 @@ def runNodeStop (m scenario : String) (param : Nat) : String :=
     else if (scenario = "insig") ∧ inCallback s.pcS ∧ countSig s = param + 1 then some (.stopIn .sig)
     else if scenario = "contended" ∧ inCallback s.pcS ∧ countSig s = 1 then some (.stopIn .sig)
     else if scenario = "external" ∧ s.log.length ≥ param + 1 then some .stopExt
+    -- storm: timer commands only (no signal is ever delivered); stop() from outside at once
+    else if scenario = "storm" then some .stopExt
     else none
-  let s := playNode 600 s0 40 40 hook
+  let s := playNode 600 s0 40 (if scenario = "storm" then 0 else 40) hook
   let after := match s.stopInCb with
     | some k => s.log.length - k
     | none => if s.stoppedBeforeStart then s.log.length else 0
